@@ -158,7 +158,11 @@ pub fn execute_via(subject: &dyn Subject, cfg: SourceCfg<'_>, chunk_size: Option
             Some(cap) => {
                 use std::io::BufRead;
                 let mut br = std::io::BufReader::with_capacity(cap, source);
-                let _ = br.fill_buf();
+                if br.fill_buf().is_err() {
+                    // the harness' own pre-fill met the (one-off) failure: re-arm it, the reader
+                    // under test has to meet it as well
+                    st2.borrow_mut().err_returned = 0;
+                }
                 DeferredReader::from_buf_reader(br)
             }
         };
